@@ -72,6 +72,27 @@ class C20(E1Prop):
                 for o in seq:
                     o['dt'] = rng.choice([1, 5, 30])
                 self.script = seq
+            elif w.cfg.get('hotfixes') and rng.random() < 0.6:
+                # story: a hotfix branch is archived, opened again, gets a
+                # change, and is archived a second time
+                hf = 'hotfix/' + w.cfg['hotfixes'][0]
+                seq = [{'op': 'api', 'job': 'delete_branch',
+                        'kwargs': {'branch': hf}},
+                       {'op': 'api', 'job': 'create_branch',
+                        'kwargs': {'branch': hf}},
+                       {'op': 'open_pr', 'actor': 'alice',
+                        'src': 'bugfix/TEST-750', 'dst': hf, 'kind': 'new'},
+                       {'op': 'eval', 'p': 0},
+                       {'op': 'ci_green_all', 'which': ['src', 'w']},
+                       {'op': 'eval', 'p': 0},
+                       {'op': 'ci_green_all', 'which': ['q']},
+                       {'op': 'deliver_all'},
+                       {'op': 'api', 'job': 'delete_branch',
+                        'kwargs': {'branch': hf}},
+                       {'op': 'deliver_all'}]
+                for o in seq:
+                    o['dt'] = rng.choice([1, 5, 30])
+                self.script = seq
         if getattr(self, 'script', None):
             return self.script.pop(0)
         return self.gen.next(w)
